@@ -35,6 +35,13 @@ package main
 //@   at call validate#1: after ghost $valid = result == nil
 //@   at call Object#1: assert r.Method == "POST" && $decoded && $valid
 //@   at call Object#1: assert $ended
+// The object is named by the report's week and X: "<Week>/<X>.json" with X in the
+// %g notation (the shortest representation, with an exponent for small and large
+// values) - the name readers of the bucket and the merge's listing rely on. (That
+// the two values formatted are the report's Week and X is not asserted: the
+// engine does not see through the variadic argument array.)
+//@   at call Sprintf#1: assert arg0 == "%s/%g.json" && len(arg1) == 2
+//@   at call Object#1: assert arg0 == name
 //@   at call NewWriter#1: assert r.Method == "POST" && $decoded && $valid
 //@   at call NewWriter#1: ghost $stored = true
 //@   at call Error#1: assert arg1 == 400 && !$stored
